@@ -23,7 +23,7 @@ FIRST = {
     # round d (generic flavour; first run against the machinery after rounds a-c, incl. the source fingerprints)
     "C01-d": "input", "C02-d": "oblig", "C03-d": "input", "C04-d": "oblig", "C05-d": "input", "C06-d": "input", "C07-d": "input",
     "C08-d": "input", "C09-d": "input", "C10-d": "input", "C11-d": "oblig", "C12-d": "input", "C13-d": "oblig", "C14-d": "input",
-    "C15-d": "input", "C16-d": "oblig", "C17-d": "oblig", "C18-d": "input", "C19-d": "input", "C20-d": "oblig",
+    "C15-d": "oblig", "C16-d": "oblig", "C17-d": "oblig", "C18-d": "input", "C19-d": "input", "C20-d": "oblig",
     # round e ("a second, less travelled place")
     "C02-e": "oblig", "C04-e": "input", "C11-e": "missed", "C13-e": "oblig", "C16-e": "input", "C17-e": "oblig", "C20-e": "input",
     "C03-e": "oblig", "C05-e": "oblig", "C07-e": "oblig", "C14-e": "input", "C18-e": "input", "C19-e": "input",
@@ -42,6 +42,7 @@ STRENGTHENED = {
     "C11-a": "directed history openings (refresh that drops serials, failed-then-good refresh, failing first loads, rejected-then-genuine, two issuers, foreign signer)",
     "C14-a": "issuer names made of the same attributes in another order / grouping / with a repeated attribute",
     "C15-a": "first-load failure histories for CDP-learned CRLs in both fetch modes",
+    "C15-d": "(first run re-classified in session 5: the concrete-looking line it printed was the false alarm of DESIGN §10, last item; the change itself was only seen by the translator and the decision probe) stream of first-seen distribution points, one per interval/3, during which the lists in force must still be refreshed within the bound",
     "C17-a": "early abort on a live-heap ceiling and a wall-clock guard (the defect made the run take 46 min)",
     "C01-b": "negative serial numbers: C06 generator (entry serials with the high bit set), C01 whole-validator cells with a re-signed negative-serial certificate",
     "C04-b": "AKI naming the signer by serial only / with a URI issuer; oracle: the accepted signer must be identified by the CRL (name, key id or issuer+serial)",
